@@ -162,7 +162,7 @@ def render_scenario(sc, K):
         L.append(ind + 'f = C_%d().m' % K)
     else:
         if kind == 'decorated':
-            L.append(ind + '@_deco((%d, _i))' % K)
+            L.append(ind + '@_deco((%d, 1))' % K)
         L.append(ind + 'def f(%s):' % sig)
         L += body(ind + '    ')
     L.append(ind + 'def sib(n, val):')
@@ -245,7 +245,7 @@ class Runner(object):
         self.kind = sc['kind']
         self.method = self.kind == 'method'
         self.params = sc['params']
-        self.cparams = ([dict(name='self', kind='pos', dflt=0)] if self.method else []) + list(self.params)
+        self.cparams = ([sc['selfparam']] if self.method else []) + list(self.params)
         self.names = FREE[:len(sc['free'])]
         self.make = getattr(mod, 'make_%d' % K)
         self.gcells = set(sc['gcells'])
@@ -431,16 +431,18 @@ class Runner(object):
         if mod.G != post[18]:
             raise Problem('global-value', what, dict(expected=post[18], got=repr(mod.G)[:80]))
 
-    def check_probes(self, insts, probes, mode, what):
+    def check_probes(self, insts, probes, mode, what, last):
+        """The effect-free full call on every side (the convert() wrapper, which converts on every call, only
+        after the last step)."""
         fullnpos = sum(1 for p in self.params if p['kind'] in ('posonly', 'pos'))
         fullkw = [p['name'] for p in self.params if p['kind'] == 'kwonly']
         for i, it in enumerate(insts):
-            sides = ['f'] if mode == 'twin' else (['f', 'c'] + (['g'] if it.g is not None else []))
+            sides = ['f'] if mode == 'twin' else (['f'] + (['g'] if it.g is not None else []) + (['c'] if last else []))
             for side in sides:
                 got = self.do_call(it, side, mode, fullnpos, fullkw, False)
                 self.compare_call(it, got, probes[i], fullnpos, '%s:probe-%s' % (what, side))
 
-    def check_all(self, insts, post, probes, mode, what):
+    def check_all(self, insts, post, probes, mode, what, last=False):
         if mode == 'real':
             for it in insts:
                 if it.g is not None:
@@ -448,7 +450,7 @@ class Runner(object):
                         self.check_statics(it)
                     self.check_identities(it)
         self.check_heap(insts, post, what)
-        self.check_probes(insts, probes, mode, what)
+        self.check_probes(insts, probes, mode, what, last)
 
     # ---- one behaviour ----------------------------------------------------------------------------------
     def run(self, steps, mode):
@@ -458,8 +460,8 @@ class Runner(object):
         if sc['pre']:
             for it in insts:
                 self.convert(it, mode)
-        self.check_all(insts, sc['post'], sc['probes'], mode, 'initial')
-        for st in steps:
+        self.check_all(insts, sc['post'], sc['probes'], mode, 'initial', last=not steps)
+        for n, st in enumerate(steps):
             act, side, i, npos, kws, dup, name, how, val, obs, post, probes = st
             it = insts[i - 1]
             what = '%s-%s' % (act, side if act != 'rebind' else side + '-' + how)
@@ -497,7 +499,7 @@ class Runner(object):
                 fn.__globals__['G'] = val
             else:
                 raise RuntimeError('unknown action %r' % (act,))
-            self.check_all(insts, post, probes, mode, what)
+            self.check_all(insts, post, probes, mode, what, last=(n == len(steps) - 1))
         if mode == 'real':
             for it in insts:
                 if it.g is not None:
